@@ -394,6 +394,20 @@ yields exactly the keys of the printed form in order, with multiplicity — for 
 type (`tr`: internal key first; `sortedmulti` / `multi_a` keys as written) -/
 theorem desc_iter_pk_eq_keys (d : Desc) : d.iterPk = d.keysPrinted := TranslateDesc.iterPk_eq d
 
+/-- D4: `Descriptor::for_each_key(pred)` calls `pred` on the keys in `for_each_key` order (the
+miniscript's pre-order; `tr`: tap leaves in order, then the internal key) and stops at the first
+key that fails; `for_any_key` is its dual -/
+theorem desc_for_each_key_eq_keys (pred : Key → Bool) (d : Desc) :
+    descForEachKey pred d = allVisit pred d.keysForEach := descForEachKey_eq pred d
+
+theorem desc_for_any_key_eq_keys (pred : Key → Bool) (d : Desc) :
+    descForAnyKey pred d = ((allVisit (fun k => !pred k) d.keysForEach).1,
+      !(allVisit (fun k => !pred k) d.keysForEach).2) := by
+  unfold descForAnyKey; rw [desc_for_each_key_eq_keys]
+
+example : descForEachKey (fun k => k != 3) (Desc.tr 7 [(1, .hash .sha256 0), (1, .multiA 1 [3, 2])]) = ([3], false) := by
+  decide
+
 /-- the translated descriptor has the substituted key list -/
 theorem desc_keys_translate (f : Key → Key) (g : HashKind → Nat → Nat) (d : Desc) :
     (d.mapKeys f g).iterPk = d.iterPk.map f := by
